@@ -1,6 +1,7 @@
 import CallbagModel.Fun.Relay
 import CallbagModel.Fun.Take
 import CallbagModel.Inv.Fuse
+import CallbagModel.Inv.ComposeFun
 /-!
 # C07 — reactive programming: unary operators are incremental list functions
 
@@ -72,5 +73,31 @@ theorem C07_pipe_map_filter {α β : Type} (f : α → β) (p : β → Bool) :
       simp only [xferOut, Fuse.fuse, Relay.map, Relay.filter, List.map_cons, List.filter_cons] at this ⊢
       by_cases hp : p (f a) = true <;> simp [hp, this]
   exact this _
+
+/-! ## pipelines of ANY length: the list function of a pipeline is the composition of the list functions of its stages
+
+`Inv/ComposeFun.lean` strengthens the assume–guarantee projection of `Inv/ComposeSafe.lean` with the TRACES: every reachable
+configuration of `compose M₁ M₂` projects onto reachable configurations of `M₁` and `M₂` whose sink-side / source-side events are the
+pipeline's, and whose events on the internal interface mirror each other; at the pipeline's environment turns both components are at
+environment turns of their own.  `Stage M F`: `M` is pipeable and at every environment turn `recvData 0 tr = F (sentData 0 tr)`. -/
+
+theorem C07_pipeline {S1 L1 S2 L2 α β γ : Type} {M1 : Machine S1 L1 α β} {M2 : Machine S2 L2 β γ}
+    {F1 : List α → List β} {F2 : List β → List γ} (h1 : Stage M1 F1) (h2 : Stage M2 F2) :
+    (∀ s, SReach (compose M1 M2) s → BasicSafe s) ∧
+    (∀ s, SReach (compose M1 M2) s → EnvTurn s → recvData 0 s.tr = (F2 ∘ F1) (sentData 0 s.tr)) :=
+  (h1.compose h2).spec
+
+/-- the stages: map, filter, scan, skip, take (and every composition of stages, by `Stage.compose`) -/
+theorem C07_stages {α β : Type} (f : α → β) (p : α → Bool) (r : β → α → β) (seed : β) (n : Nat) :
+    Stage (Relay.machine (Relay.map f)) (List.map f) ∧ Stage (Relay.machine (Relay.filter p)) (List.filter p) ∧
+    Stage (Relay.machine (Relay.scan r seed)) (scanF r seed) ∧ Stage (Relay.machine (Relay.skip (α := α) n)) (List.drop n) ∧
+    Stage (Take.machine α n) (List.take n) :=
+  ⟨Relay.map_stage f, Relay.filter_stage p, Relay.scan_stage r seed, Relay.skip_stage n, Take.stage n⟩
+
+/-- worked instance, three stages -/
+theorem C07_pipe_map_filter_take {α β : Type} (f : α → β) (p : β → Bool) (n : Nat) :
+    ∀ s, SReach (compose (compose (Relay.machine (Relay.map f)) (Relay.machine (Relay.filter p))) (Take.machine β n)) s →
+      EnvTurn s → recvData 0 s.tr = (((sentData 0 s.tr).map f).filter p).take n :=
+  (map_filter_take f p n).2
 
 end Cb.Thm
